@@ -207,11 +207,7 @@ theorem oversized_message_refused (fin : Bool) (op : Nat) (hop : op < 3) (key : 
     rcases readFrame_mono msgLen (Rfc6455.frame fin op key p ++ rest) with h0 | h0
     · rw [h0] at h; exact absurd h (by simp)
     · rw [h] at h0
-      have hne : p ≠ [] ∨ key.isSome = true ∨ rest ≠ [] := by
-        by_cases hpe : p = []
-        · subst hpe; simp at hsum; omega
-        · exact Or.inl hpe
-      have hfull := readFrame_frame fin op (by omega) key p hp rest hne 0 (fun _ => by have : p.length ≤ 2147483632 := hp; omega)
+      have hfull := readFrame_frame fin op (by omega) key p hp rest 0 (fun _ => by have : p.length ≤ 2147483632 := hp; omega)
       rw [hfull] at h0
       simp only [Frame.ok.injEq] at h0
       obtain ⟨_, ho, hbb, _⟩ := h0
@@ -297,9 +293,9 @@ theorem truncation_partial (isClient : Bool) (rng : Rng) (ms : List Rfc6455.Msg)
 
 /-- **Cut inside a message after its first frame** — inside a continuation frame, or inside a control
     frame injected between fragments, at any offset: the complete messages before it are delivered intact,
-    once, in order; the interrupted message yields at most one further result, namely the concatenation of
-    its fragments that arrived whole (`m.first` and `t1`; nothing of the frame that was cut); the
-    connection ends closed. -/
+    once, in order; nothing of the interrupted message is delivered — neither the frame that was cut nor the
+    fragments `m.first`, `t1` that had arrived whole (repaired in 81c34a7: they used to be returned as a
+    message); the connection ends closed. -/
 theorem truncation_inside_message (isClient : Bool) (rng : Rng) (ms : List Rfc6455.Msg) (m : Rfc6455.Msg)
     (t1 : List Rfc6455.Frag) (cs : List Rfc6455.Ctl) (fin : Bool) (op : Nat) (hop : op < 16) (key : Option Rfc6455.Key)
     (p : List UInt8) (k : Nat)
@@ -310,8 +306,7 @@ theorem truncation_inside_message (isClient : Bool) (rng : Rng) (ms : List Rfc64
                    inp := ms.flatMap Rfc6455.Msg.bytes ++ (Rfc6455.ctlBytes m.first.before ++
                      (Rfc6455.frame false (msgOp m) m.first.key m.first.payload ++ (Rfc6455.openBytes t1 ++
                        (Rfc6455.ctlBytes cs ++ (Rfc6455.frame fin op key p).take k)))) }
-    r.1.filter (· ≠ []) = ms.map (·.payload) ++ [m.first.payload ++ t1.flatMap (·.payload)].filter (· ≠ []) ∧
-    r.2.closed = true ∧ r.2.fault = false := by
+    r.1.filter (· ≠ []) = ms.map (·.payload) ∧ r.2.closed = true ∧ r.2.fault = false := by
   intro r
   obtain ⟨extra, c', h1, h2, h3, h4⟩ := receiveAll_cut_inside ms m t1 cs fin op hop key p k
     { isClient := isClient, rng := rng,
@@ -328,10 +323,9 @@ theorem truncation_inside_message (isClient : Bool) (rng : Rng) (ms : List Rfc64
   rw [hr]
   exact ⟨by rw [h2, hall], h3, h4⟩
 
-/-- the single statement for a cut at *any* byte offset `k` of a conversation: the non-empty results are the
-    payloads of the messages wholly before the cut, followed by at most one more result, a prefix of the
-    payload of the message being cut.  Every cut position strictly inside a frame is proved above
-    (`truncation_partial`: first frame of a message or a control frame between messages;
+/-- the single statement for a cut at *any* byte offset `k` of a conversation: the non-empty results are
+    exactly the payloads of the messages wholly before the cut.  Every cut position strictly inside a frame
+    is proved above (`truncation_partial`: first frame of a message or a control frame between messages;
     `truncation_inside_message`: any later frame of a message), cuts between messages are `messages_intact`
     on the shorter conversation.  Not proved: the arithmetic step "every `k` is one of these positions", and
     a cut exactly at a frame boundary inside a message (validated by the correspondence check on every
@@ -340,9 +334,7 @@ def truncation_full : Prop :=
   ∀ (isClient : Bool) (rng : Rng) (ms : List Rfc6455.Msg) (trailing : List Rfc6455.Ctl) (k : Nat),
     (∀ m ∈ ms, MsgFits m) → CtlsFit trailing → (∀ m ∈ ms, m.payload ≠ []) →
     let r := run { isClient := isClient, rng := rng, inp := (Rfc6455.wire ms trailing).take k }
-    ∃ (n : Nat) (extra : List (List UInt8)), n ≤ ms.length ∧
-      r.1.filter (· ≠ []) = (ms.take n).map (·.payload) ++ extra ∧
-      (extra = [] ∨ ∃ m q, ms[n]? = some m ∧ extra = [q] ∧ q <+: m.payload) ∧
+    ∃ (n : Nat), n ≤ ms.length ∧ r.1.filter (· ≠ []) = (ms.take n).map (·.payload) ∧
       r.2.closed = true ∧ r.2.fault = false
 
 /-! ## handshake -/
@@ -420,6 +412,10 @@ example : MsgFits ⟨true, ⟨[⟨false, [1], none⟩], [1, 2], some ⟨0, 9, 0,
   simp [MsgFits, FragFits, CtlsFit, Fits, Rfc6455.Msg.payload]
 -- the frame that used to give a negative length closes the connection
 example : (run { isClient := false, rng := ⟨1, 2, 3, 4⟩, inp := [0x82, 0x7f, 0, 0, 0, 0, 0x80, 0, 0, 0] }).1 = [[]] := by decide
+-- a stream that ends between the fragments of a message delivers nothing of it (81c34a7) …
+example : (run { isClient := false, rng := ⟨1, 2, 3, 4⟩, inp := [0x01, 0x03, 0x61, 0x62, 0x63] }).1 = [[]] := by decide
+-- … but a final frame with an empty payload at the very end of the stream completes its message
+example : (run { isClient := false, rng := ⟨1, 2, 3, 4⟩, inp := [0x01, 0x03, 0x61, 0x62, 0x63, 0x80, 0x00] }).1 = [[0x61, 0x62, 0x63]] := by decide
 -- a frame cut inside its payload is not delivered
 example : (run { isClient := false, rng := ⟨1, 2, 3, 4⟩, inp := [0x81, 0x14, 0x61, 0x62, 0x63] }).1 = [[]] := by decide
 
